@@ -74,7 +74,22 @@ func nestedIndexHistory(h *HistGen) []J {
 		docs = append(docs, encDoc(m))
 	}
 	lines = append(lines, opLine("insert", J{"coll": hx(c), "docs": docs}), opLine("createIndex", J{"coll": hx(c), "field": hx("n.a")}), opLine("createIndex", J{"coll": hx(c), "field": hx("n.b")}))
+	// an index on the enclosing object as well: a write to n.a or n.b changes the value of n
+	ancestor := g.pick(2) == 0
+	if ancestor {
+		lines = append(lines, opLine("createIndex", J{"coll": hx(c), "field": hx("n")}))
+	}
 	probe := func() {
+		if ancestor {
+			for _, q := range []J{
+				{"coll": hx(c), "crit": J{"cmp": []interface{}{"ge", hx("n"), J{"lit": encValue(map[string]interface{}{"a": int64(30)})}}}},
+				{"coll": hx(c), "crit": J{"cmp": []interface{}{"lt", hx("n"), J{"lit": encValue(map[string]interface{}{"a": int64(30)})}}}},
+				{"coll": hx(c), "sort": []interface{}{[]interface{}{hx("n"), 1 - 2*g.pick(2)}, []interface{}{hx("_id"), 1}}},
+			} {
+				lines = append(lines, opLine([]string{"findAll", "count"}[g.pick(2)], J{"q": q}))
+			}
+			lines = append(lines, J{"k": "dump"})
+		}
 		for _, q := range []J{
 			{"coll": hx(c), "crit": J{"cmp": []interface{}{"ge", hx("n.a"), J{"lit": encValue(int64(0))}}}},
 			{"coll": hx(c), "crit": J{"cmp": []interface{}{"le", hx("n.a"), J{"lit": encValue(int64(25))}}}},
@@ -275,6 +290,13 @@ func streamHistories(c *Ctx, cfg HistCfg, what string) {
 					im.Destroy()
 					return
 				}
+			}
+		}
+		if what == "results" && cfg.Indexes {
+			// C01: pairs of constraints on one indexed field (shared bounds, nil bounds), every answer against the specification
+			if !sameFieldCells(c, dr, im, be) {
+				im.Destroy()
+				return
 			}
 		}
 		if cfg.Indexes {
